@@ -127,6 +127,42 @@ pub fn run_child(args: &[String], sink: &mut dyn FnMut(Value)) -> End {
     end
 }
 
+/// `consts <seed> <plan.json> <out.ndjson> <tier>` — C11 constants recorder under the same watchdog
+pub fn consts_main(args: &[String]) -> i32 {
+    let mut out = std::io::BufWriter::new(std::fs::File::create(&args[2]).expect("create output"));
+    let a = vec!["consts-child".to_string(), args[0].clone(), args[1].clone(), args.get(3).cloned().unwrap_or_default()];
+    let mut events = 0u64;
+    let end = {
+        let mut sink = |v: Value| {
+            serde_json::to_writer(&mut out, &v).unwrap();
+            out.write_all(b"\n").unwrap();
+            events += 1;
+        };
+        run_child(&a, &mut sink)
+    };
+    let mut stuck = 0;
+    match end {
+        End::Done => {},
+        End::Stuck { pending, .. } => {
+            // a constant accessor / exp / get_root_of_unity that never returns: recorded, the rest of
+            // the plan is lost (the certificates will be incomplete, which is reported as well)
+            let mut p = pending;
+            p.as_object_mut().unwrap().remove("B");
+            serde_json::to_writer(&mut out, &p).unwrap();
+            out.write_all(b"\n").unwrap();
+            events += 1;
+            stuck = 1;
+        },
+        End::Broken(msg) => {
+            eprintln!("consts child broken: {msg}");
+            return 3;
+        },
+    }
+    out.flush().unwrap();
+    println!("{}", json!({"summary": true, "events": events, "stuck": stuck}));
+    0
+}
+
 /// `record <seed> <n_per_combo> <out.ndjson> <tier> [combo:sc ...]` — records scenarios 0..n of every combo
 /// (or exactly the listed scenarios) and writes the events, including timeout/crash events.
 pub fn record_main(args: &[String]) -> i32 {
